@@ -152,6 +152,10 @@ def _generate(seed):
     b0 = pick_body()
     p = b0.wpos + rng.uniform(-0.3, 0.3, 3)
     path = [f'<site site="{new_site(b0, p)}"/>']
+    if rng.random() < 0.3:
+      # a leading pulley scales the first branch too
+      path.insert(0, f'<pulley divisor="{_f(rng.choice([2, 3]))}"/>')
+      feat.add("xtree:pulley")
     nseg = int(rng.integers(1, 4))
     s = 0
     after_pulley = False
@@ -187,7 +191,7 @@ def _generate(seed):
         feat.add("xtree:wrap:" + g["type"])
         p = q
         after_pulley = False
-      elif r > 0.88 and s > 0 and not after_pulley:
+      elif r > 0.82 and s > 0 and not after_pulley:
         path.append(f'<pulley divisor="{_f(rng.choice([1, 2, 3]))}"/>')
         b1 = pick_body()
         p = b1.wpos + rng.uniform(-0.3, 0.3, 3)
